@@ -42,7 +42,7 @@ CONFIG = dict(
          "shards) or fine (every scheduling point) granularity; plus every subscription point of sequential histories; "
          "thorough tier adds ALL schedules of curated 2-shard x 2-writer x 3-op programs with one subscriber (coarse) and of "
          "tiny programs at fine granularity; non-trivial = some subscription received a route event; distinct = distinct case line",
-    expect_tokens=["limit", "(up ", "(down ", "eos", " w", " d", "(fwd (up", "(down 0))) (rib", "t f (ctl", " f t (ctl",
+    expect_tokens=["limit", "(up ", "(down ", "eos", " w", " d", "(fwd (up", "(down 0)))) (rib", "t f (ctl", " f t (ctl",
                    "(none none)", "(rows 0 0)", "(hist)"],
     trusted_base=["model Rbgp/Monitor/Model.lean of daemon/src/table_manager.rs (subscribe/unsubscribe/insert_route/remove_route/"
                   "soft_reset_in/unregister_peer/peer_up/peer_down) and of bmp.rs apply_snapshot/track_peer_up/track_peer_down",
@@ -146,6 +146,28 @@ def gen_random(r):
     return case_str(n, gran, limit, threads, sched)
 
 
+def gen_softreset(r):
+    """policy flip + soft reset IN racing with a subscriber at fine or coarse granularity"""
+    n = r.pick([2, 2, 3])
+    gran = r.pick([0, 1, 1])
+    ops = []
+    for _ in range(1 + r.below(3)):
+        ops.append("(ins %d %d %d %d)" % (r.below(n), r.below(2), r.below(2), 1 + r.below(9)))
+    ops.append("(pol %s)" % r.pick(["reject", "tag"]))
+    ops.append("sr")
+    if r.chance(1, 3):
+        ops += ["(pol none)", "sr"]
+    threads = [("w", ops), ("s", s_ops(r))]
+    if r.chance(1, 3):
+        threads.insert(1, ("w", w_ops(r, n, 1 + r.below(3), True)))
+    # let the writer get into the soft reset, run the subscriber, then interleave
+    nins = len([o for o in ops if o.startswith("(ins")])
+    lead = (3 * nins if gran == 1 else nins) + 1 + r.below(4)
+    si = len(threads) - 1
+    sched = [0] * lead + [si] * (2 + r.below(5)) + [r.below(len(threads)) for _ in range(12)]
+    return case_str(n, gran, 0, threads, sched)
+
+
 def gen_sequential_points(r):
     """one writer history, a subscriber that subscribes after exactly p writer segments (all p)."""
     n = r.pick([1, 2, 3])
@@ -195,7 +217,7 @@ EXH_PROGRAMS = [
     (["(ins 0 0 0 1)", "(ins 0 0 0 2)", "(rem 0 0 0)"], ["(ins 1 0 0 3)", "(rem 1 0 0)", "(ins 1 0 0 4)"]),
     (["up", "(ins 0 0 0 1)", "down"], ["(ins 0 0 0 3)", "(ins 1 0 0 4)", "(rem 0 0 0)"]),
     (["(ins 0 0 0 1)", "(ins 1 0 0 2)", "down"], ["(ins 0 0 1 3)", "(rem 0 0 1)", "(ins 0 0 1 5)"]),
-    (["(ins 0 0 0 1)", "(pol reject)", "sr"], ["(ins 1 0 0 3)", "(ins 0 0 0 4)", "(rem 1 0 0)"]),
+    (["(ins 1 0 0 1)", "(pol reject)", "sr"], ["(ins 1 0 0 3)", "(ins 0 0 0 4)", "(rem 1 0 0)"]),
     (["(ins 0 0 0 1)", "(ins 1 0 0 2)", "sr"], ["(pol tag)", "(ins 0 0 0 4)", "(pol none)"]),
 ]
 
@@ -247,8 +269,10 @@ def gen(seed, n, tier):
         out += gen_exhaustive()
     while len(out) < n:
         x = r.below(100)
-        if x < 70:
+        if x < 60:
             out.append(gen_random(r))
+        elif x < 72:
+            out.append(gen_softreset(r))
         elif x < 97:
             out += gen_sequential_points(r)
         else:
